@@ -47,7 +47,8 @@ Proof.
   unfold remote_reconcile, phase_obj_of, pobj_name. cbn [desired_phase op_id oi_kind oi_ns oi_name].
   set (name := join_name (oi_name (os_id s)) (ph_name ph)).
   destruct (find_phase (sw_phases sw) (phase_kind s) (oi_ns (os_id s)) name) as [cur|] eqn:Ef.
-  - destruct (Bool.eqb (op_paused cur) _); intros H; injection H as <- <- <- <-; cbn; intros Hi;
+  - destruct (negb (controlled_by_uid (op_owners cur) (oi_uid (os_id s)))); [|destruct (Bool.eqb (op_paused cur) _)];
+      intros H; injection H as <- <- <- <-; cbn; intros Hi;
       repeat (destruct Hi as [Hi|Hi]; [discriminate|]); contradiction.
   - intros H. injection H as <- <- <- <-. cbn. intros [Hi|[Hi|[]]]; [discriminate|]. injection Hi as <- <-.
     split; [reflexivity|]. split; [apply stamp_carries, desired_phase_carries|]. split; [reflexivity|]. split; [|repeat split].
@@ -446,6 +447,9 @@ Section OnePhaseObject.
     - destruct (find_phase_key _ _ _ _ _ Ef) as (Hk & Hns & Hn).
       assert (Hnc : forall evs, (evs = [SPhase (PGet name (Some cur))] \/ exists p q, evs = [SPhase (PGet name (Some cur)); SPhase (PPause name p q)]) -> ~ creates name evs).
       { intros evs [->|(p & q & ->)] (x & Hin); cbn in Hin; repeat (destruct Hin as [Hin|Hin]; [discriminate|]); contradiction. }
+      destruct (negb (controlled_by_uid (op_owners cur) (oi_uid (os_id s)))).
+      { injection H as <- <- <- <-. split; [intros Hc; exfalso; exact (Hnc _ (or_introl eq_refl) Hc)|]. split; [intros _; exact (Hnc _ (or_introl eq_refl))|].
+        intros kind ns nm p Hp. exists p. split; [exact Hp|apply core_eq_refl]. }
       destruct (Bool.eqb (op_paused cur) _).
       + injection H as <- <- <- <-. split; [intros Hc; exfalso; exact (Hnc _ (or_introl eq_refl) Hc)|]. split; [intros _; exact (Hnc _ (or_introl eq_refl))|].
         intros kind ns nm p Hp. exists p. split; [exact Hp|apply core_eq_refl].
@@ -659,7 +663,7 @@ Section Relay.
     find_cond conds CAvailable = Some cd -> cd_status cd = STrue ->
     find_cond (os_conds mem0) CAvailable <> Some cd ->
     forall q, In q (os_phases mem0) -> ph_class q = true ->
-      exists cur, phase_read evs (pobj_name mem0 q) cur /\ avail_current cur.
+      exists cur, own_phase_read mem0 evs q cur /\ avail_current cur.
   Proof.
     intros Hfind Hact H Hin Hfc Hst Hnew q Hq Hc.
     destruct (C06_available_true_justified_all force _ _ _ _ _ _ _ _ _ _ _ _ _ _ _ Hfind Hact H Hin Hfc Hst Hnew) as (_ & _ & _ & Hd & _).
@@ -779,12 +783,74 @@ Section RelayOwn.
     - exists p. split; [|apply core_eq_refl]. rewrite find_put_phase_other; [exact Hp|exact E].
   Qed.
 
-  (** The phase object of its own class an ObjectSet pass (active) finds under the name of a delegated phase is,
-      if it was created by the passes of that ObjectSet, the one that carries the phase: creation carries
-      ([rpm_created_carries]) and every later pass of the ObjectSet controller keeps the immutable part
-      ([active_pass_phase_objects]); so does the ObjectSetPhase controller ([update_pstatus_core], finalizer
-      patches change only the finalizer). What is NOT true: that the object found under that name was created by
-      this ObjectSet. *)
+  (** ** relay_own: everything the ObjectSet relays comes from a phase object it controls.
+      The step: the remote phase reconciler records, pause-patches and relays only a phase object whose
+      controller reference names this ObjectSet (metav1.IsControlledBy); for any other object found under the
+      name it answers with an error and leaves the world and the recorded remote phases untouched. *)
+  Theorem relay_own_step sw s ph rem sw1 e1 rem1 r :
+    remote_reconcile sw s ph rem = (sw1, e1, rem1, r) ->
+    match r with
+    | RRErr => rem1 = rem /\ Forall (fun e => match e with SPhase (PPause _ _ _) => False | _ => True end) e1
+    | RROk active failed =>
+        exists cur, phase_obj_of sw1 s ph = Some cur /\ relay cur = RROk active failed /\
+          phase_read e1 (pobj_name s ph) cur /\
+          controlled_by_uid (op_owners cur) (oi_uid (os_id s)) = true /\
+          rem1 = add_remote rem (pobj_name s ph, oi_uid (op_id cur))
+    end.
+  Proof. apply remote_reconcile_own. Qed.
+
+  Theorem relay_foreign_is_error sw s ph rem cur :
+    phase_obj_of sw s ph = Some cur -> controlled_by_uid (op_owners cur) (oi_uid (os_id s)) = false ->
+    remote_reconcile sw s ph rem = (sw, [SPhase (PGet (pobj_name s ph) (Some cur))], rem, RRErr).
+  Proof.
+    unfold remote_reconcile, phase_obj_of, pobj_name. cbn [desired_phase op_id oi_kind oi_ns oi_name]. intros -> ->. reflexivity.
+  Qed.
+
+  (** The pass: in any status request of an active pass that newly reports Available=True, (1) every delegated
+      phase was relayed from a phase object read in this pass that this ObjectSet controls and that is Available
+      for its own generation; (2) every controllerOf entry was seen controlled by the ObjectSet itself or is
+      reported by such a phase object; (3) every status.remotePhases entry is the stored one or names such a
+      phase object with its uid. No hypothesis on names or on who created the phase object. *)
+  Theorem relay_own sw k ns n mem0 sw' evs r rev conds ctrlof rem fph ok cd :
+    find_set (sw_sets sw) k ns n = Some mem0 -> is_active mem0 ->
+    objectset_pass force sw k ns n = (sw', evs, r) ->
+    In (SMeta (MStatus rev conds ctrlof rem fph ok)) evs ->
+    find_cond conds CAvailable = Some cd -> cd_status cd = STrue ->
+    find_cond (os_conds mem0) CAvailable <> Some cd ->
+    (forall q, In q (delegated_phases mem0) -> exists cur, own_phase_read mem0 evs q cur /\ avail_current cur) /\
+    (forall key, In key ctrlof -> seen_controlled (sw_w sw') (as_owner mem0) key \/ reported_by_phase mem0 (os_phases mem0) evs key) /\
+    (forall x, In x rem -> In x (os_remotes mem0) \/
+       exists q cur, In q (os_phases mem0) /\ ph_class q = true /\ own_phase_read mem0 evs q cur /\ x = (pobj_name mem0 q, oi_uid (op_id cur))).
+  Proof.
+    intros Hfind Hact H Hin Hfc Hst Hnew.
+    destruct (C06_available_true_justified_all force _ _ _ _ _ _ _ _ _ _ _ _ _ _ _ Hfind Hact H Hin Hfc Hst Hnew) as (_ & _ & _ & H1 & H2 & H3 & _).
+    auto.
+  Qed.
+
+  (** The loop, for any outcome (also when a later phase fails or errors): every remote phase reference gathered
+      and every controllerOf entry taken from a phase object comes from one this ObjectSet controls. *)
+  Theorem relay_own_loop s ow prev phs sw acc rem sw' evs rem' r :
+    reconcile_phases_m force sw s ow prev phs acc rem = (sw', evs, rem', r) ->
+    forall x, In x rem' -> In x rem \/
+      exists q cur, In q phs /\ ph_class q = true /\ own_phase_read s evs q cur /\ x = (pobj_name s q, oi_uid (op_id cur)).
+  Proof. apply rpm_remotes. Qed.
+
+  (** ** The shape before commit a940846 (historical) *)
+
+  (** On worlds in which the phase object is absent or controlled by the ObjectSet, nothing changed. *)
+  Theorem remote_reconcile_v0_agrees sw s ph rem :
+    match phase_obj_of sw s ph with
+    | None => True
+    | Some cur => controlled_by_uid (op_owners cur) (oi_uid (os_id s)) = true
+    end ->
+    remote_reconcile sw s ph rem = remote_reconcile_v0 sw s ph rem.
+  Proof.
+    unfold remote_reconcile, remote_reconcile_v0, phase_obj_of, pobj_name. cbn [desired_phase op_id oi_kind oi_ns oi_name].
+    destruct (find_phase _ _ _ _) as [cur|]; [|reflexivity]. intros ->. reflexivity.
+  Qed.
+
+  (** ObjectSet "n3" (uid 110) with delegated phase "p2-p5"; the only phase object is "n3-p2-p5" of ObjectSet
+      "n3-p2" (uid 100), phase "p5": same name as "n3" + "-" + "p2-p5". *)
   Definition relay_own_world : sworld :=
     let obj := {| po_gk := 1; po_ns := 0; po_name := 2; po_body := 1; po_cp := CPPrevent; po_ownerrefs := false; po_dryreject := false |} in
     let other := {| po_gk := 1; po_ns := 0; po_name := 1; po_body := 1; po_cp := CPPrevent; po_ownerrefs := false; po_dryreject := false |} in
@@ -792,7 +858,6 @@ Section RelayOwn.
                 os_deleting := false; os_fin := true; os_orphan := false; os_pkg := 0; os_life := LActive;
                 os_phases := [{| ph_name := 2005; ph_class := true; ph_objects := [obj] |}]; os_prev := [];
                 os_revision := 1; os_conds := []; os_ctrlof := []; os_remotes := [] |} in
-    (* the phase object "n3-p2-p5" of ObjectSet "n3-p2" (uid 100), phase "p5": same name as "n3" + "-" + "p2-p5" *)
     let pa := {| op_id := {| oi_kind := KObjectSetPhase; oi_ns := 1; oi_name := join_name 3002 5; oi_uid := 60 |};
                  op_rv := 70; op_gen := 1; op_owners := [ctrl_ref {| oi_kind := KObjectSet; oi_ns := 1; oi_name := 3002; oi_uid := 100 |}];
                  op_deleting := false; op_fin := true; op_orphan := false; op_pkg := 0; op_class := 1;
@@ -801,32 +866,28 @@ Section RelayOwn.
                  op_ctrlof := [{| k_gk := 1; k_ns := 1; k_name := 1 |}] |} in
     {| sw_w := {| w_store := []; w_rv := 80; w_uid := 90 |}; sw_sets := [b]; sw_phases := [pa]; sw_nss := [(1, false)] |}.
 
-  (** relay_own_refuted: an active pass of ObjectSet "n3" reports Available=True for its current generation
-      although the phase object it read for its delegated phase is controlled by another ObjectSet and carries
-      that ObjectSet's objects; none of its own objects exists. *)
-  Theorem relay_own_refuted :
-    exists sw k ns n mem0 sw' evs r rev conds ctrlof rem fph cd q cur,
-      find_set (sw_sets sw) k ns n = Some mem0 /\ is_active mem0 /\
-      objectset_pass false sw k ns n = (sw', evs, r) /\
-      In (SMeta (MStatus rev conds ctrlof rem fph true)) evs /\
-      find_cond conds CAvailable = Some cd /\ cd_status cd = STrue /\ cd_gen cd = os_gen mem0 /\
-      In q (os_phases mem0) /\ ph_class q = true /\ phase_read evs (pobj_name mem0 q) cur /\
-      controlled_by_uid (op_owners cur) (oi_uid (os_id mem0)) = false /\ op_objects cur <> ph_objects q /\
-      w_store (sw_w sw') = [].
+  (** relay_own_v0_refuted (historical, repaired by commit a940846): the old remote phase reconciler relayed
+      "available", the controllerOf and the uid of a phase object controlled by another ObjectSet and carrying
+      that ObjectSet's objects; the repaired one answers with an error and records nothing. *)
+  Theorem relay_own_v0_refuted :
+    exists sw s ph sw1 e1 rem1 active cur,
+      In s (sw_sets sw) /\ In ph (os_phases s) /\ ph_class ph = true /\
+      remote_reconcile_v0 sw s ph [] = (sw1, e1, rem1, RROk active false) /\
+      phase_read e1 (pobj_name s ph) cur /\ active = op_ctrlof cur /\ active <> [] /\
+      rem1 = [(pobj_name s ph, oi_uid (op_id cur))] /\
+      controlled_by_uid (op_owners cur) (oi_uid (os_id s)) = false /\ op_objects cur <> ph_objects ph /\
+      remote_reconcile sw s ph [] = (sw, e1, [], RRErr).
   Proof.
-    eexists relay_own_world, KObjectSet, 1, 3, _, _, _, _, _, _, _, _, _, _, _, _.
-    split; [reflexivity|]. split; [repeat split; discriminate|]. split; [vm_compute; reflexivity|].
-    split; [right; right; left; reflexivity|]. split; [reflexivity|]. split; [reflexivity|]. split; [reflexivity|].
-    split; [left; reflexivity|]. split; [reflexivity|]. split; [left; left; reflexivity|].
-    split; [reflexivity|]. split; [discriminate|reflexivity].
+    eexists relay_own_world, _, _, _, _, _, _, _.
+    split; [left; reflexivity|]. split; [left; reflexivity|]. split; [reflexivity|]. split; [vm_compute; reflexivity|].
+    split; [left; left; reflexivity|]. split; [reflexivity|]. split; [discriminate|]. split; [reflexivity|].
+    split; [reflexivity|]. split; [discriminate|]. vm_compute. reflexivity.
   Qed.
 
-  (** relay_own_partial: what holds instead. A phase object that a pass of the ObjectSet creates carries the
-      phase (objects, revision, previous, paused, class, package label, controller reference = the ObjectSet),
-      under a name that was free; missing for the full clause: the check, when a phase object already exists
-      under that name, that it is controlled by this ObjectSet (remotePhase.Teardown makes that check,
-      remotePhase.Reconcile does not). *)
-  Theorem relay_own_partial sw k ns n mem0 sw' evs r nm p :
+  (** What an ObjectSet pass creates: the phase object of one of its delegated phases, carrying that phase
+      (objects, revision, previous, paused, class, package label, controller reference = the ObjectSet), under
+      a name that was free. *)
+  Theorem created_phase_carries sw k ns n mem0 sw' evs r nm p :
     find_set (sw_sets sw) k ns n = Some mem0 -> is_active mem0 ->
     objectset_pass force sw k ns n = (sw', evs, r) ->
     In (SPhase (PCreate nm (Some p))) evs ->
@@ -1000,6 +1061,7 @@ Proof.
   set (name := join_name (oi_name (os_id s)) (ph_name ph)).
   destruct (find_phase (sw_phases sw) (phase_kind s) (oi_ns (os_id s)) name) as [cur|] eqn:Ef; [|discriminate].
   destruct (find_phase_key _ _ _ _ _ Ef) as (Hk & Hns & Hn).
+  destruct (negb (controlled_by_uid (op_owners cur) (oi_uid (os_id s)))); [discriminate|].
   destruct (Bool.eqb (op_paused cur) (lifecycle_eqb (os_life s) LPaused)) eqn:Ep.
   - intros H. injection H as <- _ _ _. exists cur. split; [exact Ef|]. now apply Bool.eqb_prop.
   - intros H. injection H as <- _ _ _. cbn [sw_phases with_phases].
